@@ -453,7 +453,7 @@ package decimal128
 //@ func RoundingMode.reduce64
 //@ returns (rsig, rexp)
 //@ logical V real
-//@ requires V >= 0 && (V == 0 ==> u128(sig) == 0 && trunc == 0) && rm <= 5 && -32000 <= exp && exp <= 32000
+//@ requires V > 0 && rm <= 5 && -32000 <= exp && exp <= 32000
 //@ requires rs(V, exp) == sig64
 //@ ensures rs(V, 0) < 0.1 ==> u128(rsig) == 0 && rexp == 0
 //@ ensures RndOK(rm, neg, rs(V, rexp), u128(rsig), rexp) || (u128(rsig) == 0 && rexp == 0 && rs(V, 0) < 0.1)
@@ -2220,6 +2220,18 @@ package decimal128
 //@ ensures tag(err) == 0 ==> !special(v) && sign(v) == neg
 //@ ensures tag(err) == 0 && dv(d, len(d)) == 0 ==> coef(v) == 0
 //@ ensures tag(err) == 0 && dv(d, len(d)) != 0 ==> (rs(V, 0) < 0.1 && coef(v) == 0) || (rs(V, 0) >= 0.1 && RndOK(DefaultRoundingMode, neg, rs(V, bexp(v)), coef(v), bexp(v)))
+//@ ghost PW int = 1
+//@ ghost LO int = 0
+//@ ghost HI int = 1
+//@ ghost before "sig := uint128{sig64, 0}": LO = sig64
+//@ ghost before "sig := uint128{sig64, 0}": HI = sig64 + 1
+//@ ghost before "if sawdot {"#2: LO = u128(sig)
+//@ ghost before "if sawdot {"#2: HI = u128(sig) + 1
+//@ ghost before "if sawdot {"#3: LO = u128(sig)
+//@ ghost before "if sawdot {"#3: HI = u128(sig) + 1
+//@ ghost before "if c != '0' {": PW = PW * 10
+//@ ghost before "if c != '0' {": LO = LO * 10
+//@ ghost before "if c != '0' {": HI = HI * 10
 //@ loop 1: invariant 0 <= i && i <= l && l == len(d) && FLAGS && trunc == 0 && !eneg
 //@ loop 1: invariant sig64 == dv(d, i) && nfrac == nfd(d, i) && 0 <= nfrac && nfrac <= i && ev(d, i) == 0 && esg(d, i) == 0
 //@ loop 1: decreases l - i
@@ -2227,12 +2239,11 @@ package decimal128
 //@ loop 2: invariant 0 <= i && i <= l && l == len(d) && FLAGS && (trunc == 0 || trunc == 1) && eneg == (esg(d, i) == 1)
 //@ loop 2: invariant 0 - i <= nfrac && nfrac <= i && 0 <= nfd(d, i) && nfd(d, i) <= i && ND >= 0 && ND <= i
 //@ loop 2: invariant 0 <= exp && exp <= ev(d, i) && (exp == ev(d, i) || exp >= 100000000000000000) && exp < 1000000000000000010 && (ST <= 6 ==> ev(d, i) == 0 && esg(d, i) == 0)
-//@ loop 2: invariant ND == 0 ==> u128(sig) == dv(d, i) && trunc == 0
-//@ loop 2: invariant ND >= 1 ==> sig[1] > 0x18ffffffffffffff && pw10(d, ND) >= 1
-//@ loop 2: invariant ND >= 1 ==> u128(sig) * pw10(d, ND) <= dv(d, i)
-//@ loop 2: invariant ND >= 1 ==> dv(d, i) <= (u128(sig) + 1) * pw10(d, ND) - 1
-//@ loop 2: invariant ND >= 1 && trunc == 0 ==> dv(d, i) == u128(sig) * pw10(d, ND)
-//@ loop 2: invariant ND >= 1 && trunc != 0 ==> dv(d, i) >= u128(sig) * pw10(d, ND) + 1
+//@ loop 2: invariant LO == u128(sig) * PW && HI == LO + PW && PW >= 1
+//@ loop 2: invariant PW == pw10(d, ND)
+//@ loop 2: invariant LO <= dv(d, i) && dv(d, i) <= HI - 1
+//@ loop 2: invariant (trunc == 0 ==> dv(d, i) == LO) && (trunc != 0 ==> dv(d, i) >= LO + 1)
+//@ loop 2: invariant (ND >= 1 ==> sig[1] > 0x18ffffffffffffff) && (ND == 0 ==> PW == 1 && trunc == 0)
 //@ loop 2: decreases l - i
 //@ apply before "return Decimal{}, parseNumberSyntaxError{}"#1: pst_absorbing(d, i + 1, len(d))
 //@ apply before "return Decimal{}, parseNumberSyntaxError{}"#2: pst_absorbing(d, i + 1, len(d))
